@@ -511,6 +511,8 @@ STD_VARIANTS = {
     "std::result::Result": {"Ok": 0, "Err": 1},
     "std::ops::ControlFlow": {"Continue": 0, "Break": 1},
     "std::cmp::Ordering": {"Less": 255, "Equal": 0, "Greater": 1},
+    "std::path::Component": {"Prefix": 0, "RootDir": 1, "CurDir": 2, "ParentDir": 3, "Normal": 4},
+    "std::collections::hash_map::Entry": {"Occupied": 0, "Vacant": 1},
 }
 
 
